@@ -281,6 +281,9 @@ func runQueryWire(c *Ctx, pr *PropertyRun, prop, pkg string) {
 	if p.Control {
 		sch.ExpectControl("bogus-attr")
 		sch.ExpectControl("is-not-define")
+		if prop == "C08" {
+			sch.ExpectControl("cdata|")
+		}
 	}
 
 	// ---- round trip
